@@ -60,16 +60,16 @@ def register(it: Interp, env: Inst, name: str, f: Inst) -> None:
 
 
 def make_query(it: Interp, model: Model, env: Inst, singular: bool) -> Inst:
-    q = it.new_inst(model.cls("query.JSONPathQuery"), "q")
+    q = it.harness_inst(model.cls("query.JSONPathQuery"), "q")
     q.attrs["env"] = env
     tok = it.new_opaque("tok")
     if singular:
-        sel = it.new_inst(model.cls("selectors.NameSelector"), "name")
+        sel = it.harness_inst(model.cls("selectors.NameSelector"), "name")
         sel.attrs.update({"env": env, "token": tok, "name": it.new_str("n")})
     else:
-        sel = it.new_inst(model.cls("selectors.WildcardSelector"), "wild")
+        sel = it.harness_inst(model.cls("selectors.WildcardSelector"), "wild")
         sel.attrs.update({"env": env, "token": tok})
-    seg = it.new_inst(model.cls("segments.JSONPathChildSegment"), "seg")
+    seg = it.harness_inst(model.cls("segments.JSONPathChildSegment"), "seg")
     seg.attrs.update({"env": env, "token": tok, "selectors": PyTuple((sel,))})
     q.attrs["segments"] = PyTuple((seg,))
     return q
@@ -79,7 +79,7 @@ def make_arg(it: Interp, model: Model, env: Inst, cls_: str, call_name: Any = No
     tok = it.new_opaque("tok", model.cls("tokens.Token"))
 
     def inst(cname_: str, **attrs: Any) -> Inst:
-        x = it.new_inst(model.cls(FE + cname_), cls_)
+        x = it.harness_inst(model.cls(FE + cname_), cls_)
         x.attrs["token"] = tok
         x.attrs.update(attrs)
         return x
@@ -388,23 +388,23 @@ def check_singular(model: Model, report: Report, rule: str, only: Any = None) ->
             continue
 
         def body(it: Interp, segs=segs) -> Any:
-            env = it.new_inst(model.cls("environment.JSONPathEnvironment"), "env")
+            env = it.harness_inst(model.cls("environment.JSONPathEnvironment"), "env")
             tok = it.new_opaque("tok")
             seg_insts = []
             for kind, sels in segs:
                 sel_insts = []
                 for s in sels:
-                    x = it.new_inst(model.cls("selectors." + SEL[s]), s)
+                    x = it.harness_inst(model.cls("selectors." + SEL[s]), s)
                     x.attrs.update({"env": env, "token": tok})
                     if s == "index":
                         x.attrs["index"] = it.new_int("index")
                     elif s == "name":
                         x.attrs["name"] = it.new_str("name")
                     sel_insts.append(x)
-                seg = it.new_inst(model.cls("segments." + ("JSONPathChildSegment" if kind == "child" else "JSONPathRecursiveDescentSegment")), kind)
+                seg = it.harness_inst(model.cls("segments." + ("JSONPathChildSegment" if kind == "child" else "JSONPathRecursiveDescentSegment")), kind)
                 seg.attrs.update({"env": env, "token": tok, "selectors": PyTuple(sel_insts)})
                 seg_insts.append(seg)
-            q = it.new_inst(qci, "q")
+            q = it.harness_inst(qci, "q")
             q.attrs.update({"env": env, "segments": PyTuple(seg_insts)})
             return it.call_function(fn, [q], {}, None, self_av=q)
 
@@ -460,7 +460,7 @@ def check_range(model: Model, report: Report, rule: str) -> None:
             c.assume_le0(hi.lin - v.lin + Lin.k(1))
 
     def mkenv(it: Interp) -> Tuple[Inst, IntV, IntV]:
-        env = it.new_inst(model.cls("environment.JSONPathEnvironment"), "env")
+        env = it.harness_inst(model.cls("environment.JSONPathEnvironment"), "env")
         lo = it.new_int("min_int_index")
         hi = it.new_int("max_int_index")
         it.ctx.assume_le0(lo.lin - hi.lin + Lin.k(2))  # a non-degenerate configured range
